@@ -208,6 +208,13 @@ class VPairs:
         self.length, self.first, self.second = length, first, second
 
 
+class VParities:
+    """immutable list of pairs (list of variables, int): a clause sequence and a parallel int array"""
+
+    def __init__(self, xs, bs):
+        self.xs, self.bs = xs, bs          # CSeq term, Array Int Int
+
+
 class VRange:
     def __init__(self, lo, hi, step=1):
         self.lo, self.hi, self.step = lo, hi, step
@@ -588,6 +595,8 @@ class Engine:
             return VSeq(self.fresh(base, specs.CSeq))
         if ty == 'mclist':
             return VMList(self.fresh(base, specs.CSeq))
+        if ty == 'paritylist':
+            return VParities(self.fresh(base + '_xs', specs.CSeq), self.fresh(base + '_bs', z3.ArraySort(z3.IntSort(), z3.IntSort())))
         if ty == 'pairlist':
             n = self.fresh(base + '_len')
             self.pc.append(n >= 0)
@@ -1404,6 +1413,10 @@ class Engine:
             niter = specs.tlen(it.term)
             t0 = it.term
             elem = lambda i: VTuple([specs.tcoef(t0, i), specs.tlit(t0, i)], 'tuple')
+        elif isinstance(it, VParities):
+            niter = specs.clen(it.xs)
+            pxs, pbs = it.xs, it.bs
+            elem = lambda i: VTuple([VSeq(specs.cget(pxs, i)), z3.Select(pbs, i)], 'tuple')
         elif isinstance(it, VTextTable):
             niter = self.fresh('table_len')
             self.pc.append(niter >= 0)
@@ -2977,6 +2990,7 @@ def sf_evrowt(eng, node, prefix, sep, suffix, clause):
 
 
 SPEC_FUNCS = {
+    'pxs': lambda eng, node, v: VSeq(v.xs), 'pbs': lambda eng, node, v: VArr(specs.clen(v.xs), v.bs),
     'evrow': sf_evrowt, 'rowapp': _wrap(specs.rowapp), 'rowsfrom': _wrap(specs.rowsfrom),
     'nonnone': sf_nonnone,
     'pairsof': lambda eng, node, A, B, n: VPairs(toz(n), as_arr(A).arr, as_arr(B).arr),
@@ -2999,7 +3013,7 @@ SPEC_FUNCS = {
     'imapsub': lambda eng, node, sq, A, n: VSeq(specs.imapsub(_term(sq), as_arr(A).arr, toz(n))),
     'isperm': lambda eng, node, A, n, base: specs.isperm(as_arr(A).arr, toz(n), toz(base)),
     'lam2': sf_lam2, 'card2': lambda eng, node, st: specs.card2(st.arr),
-    'mvar': _wrap(specs.mvar), 'gorder': _wrap(specs.gorder), 'gnedges': _wrap(specs.gnedges), 'navail_p': _wrap(specs.navail_p), 'bdegl': _wrap(specs.bdegl), 'bdegr': _wrap(specs.bdegr),
+    'mvar': _wrap(specs.mvar), 'gorder': _wrap(specs.gorder), 'gnedges': _wrap(specs.gnedges), 'navail_p': _wrap(specs.navail_p), 'navail_x': _wrap(specs.navail_x), 'bdegl': _wrap(specs.bdegl), 'bdegr': _wrap(specs.bdegr),
     'gedge1': _wrap(specs.gedge1), 'gedge2': _wrap(specs.gedge2),
     'edgepairs': lambda eng, node, g: _edgepairs(toz(g)),
     'gdom': _wrap(specs.gdom), 'grng': _wrap(specs.grng), 'rowlits': _wrap(specs.rowlits), 'collits': _wrap(specs.collits),
